@@ -19,7 +19,7 @@ C.reexec_under_impl_python()
 import iso_common as I
 
 CID = "C07"
-VO = ["props/C07.vo"] + I.VO_MODEL
+VO = ["props/C07.vo", "iso/IsoGenCor.vo"] + I.VO_MODEL
 KINDS = ("bytes", "sio", "bio")
 MAXV = 25
 
@@ -281,8 +281,10 @@ def main():
     except C.BuildError as ex:
         build_err = ex
     if build_err is not None:
-        props = {"obligations": 1, "discharged": 0, "theorems": [], "assumptions": {},
-                 "cmd": "coqc props/C07.v", "log": build_err.log, "ok": False}
+        # translator abort (harness/gen_*.py is fail-closed) or forbidden construct: nothing was re-checked
+        names = I.theorem_names(CID)
+        props = {"obligations": len(names), "discharged": 0, "theorems": names, "assumptions": {},
+                 "cmd": "coqc props/C07.v", "log": "%s\n%s" % (build_err.what, build_err.log), "ok": False}
     else:
         props = C.compile_props(CID)
     have_oracle = os.path.exists(os.path.join(C.BIN, "oracle_" + I.AREA))
@@ -326,7 +328,7 @@ def main():
         for p in soft[:3]:
             verdict.violation(p, concrete=False)
     if not props["ok"] and not verdict.violations:
-        verdict.violation({"kind": "broken proof obligation", "theorem_file": "coq/props/C07.v",
+        verdict.violation({"kind": I.broken_kind(build_err, props), "theorem_file": "coq/props/C07.v",
                            "theorems": props["theorems"], "discharged": props["discharged"], "input": None,
                            "log_tail": props["log"][-3000:]}, concrete=False)
     rc = verdict.finish()
@@ -355,6 +357,7 @@ def main():
         "regression_corpus_cases": n_reg,
         "anchor_coverage_of_one_shard": cov_summary,
         "partial_theorems": partial,
+        "model_tie": I.model_tie(build_err, props),
         "only_differential_tested": ["str / bytes / stream glue of _takes_ascii (identity in the model)",
                                      "tz.UTC / tz.tzoffset object identity (modelled as a tag + seconds)"],
         "known_findings_hit": verdict.known_hits,
@@ -362,7 +365,7 @@ def main():
     C.write_evidence(CID, tier, t0, props, cov,
                      ["CPython datetime/date/time constructors and date + timedelta modelled by Cal.valid_ymd / "
                       "ord_of_ymd / ymd_of_ord (coq/base/Cal.v), not verified",
-                      "hand-written model coq/iso/IsoModel.v tied to isoparser.py by this differential run",
+                      "model <-> source: harness/gen_iso.py (fail-closed ast translator, accepted subset in its docstring / notes/iso.md) regenerates coq/gen/IsoGen.v from isoparser.py on every run and IsoGenThm.v proves gen_f = model_f; trusted: the translator, coq/iso/IsoGenLib.v, the AST-hash pins of _takes_ascii / __init__; the differential run ties the running bytecode and the glue",
                       "regex [\\.,]([0-9]+) modelled by frac_match/span_digits"],
                      len(verdict.violations))
     print("C07 %s: obligations %d/%d, %d evaluations (%d inside guard, %d distinct), model-diff %d, kind-diff %d, "
